@@ -72,7 +72,7 @@ class TKEY(dns.rdata.Rdata):
     def from_text(
         cls, rdclass, rdtype, tok, origin=None, relativize=True, relativize_to=None
     ):
-        algorithm = tok.get_name(relativize=False)
+        algorithm = tok.get_name(origin, relativize=False)
         inception = tok.get_uint32()
         expiration = tok.get_uint32()
         mode = tok.get_uint16()
@@ -99,7 +99,7 @@ class TKEY(dns.rdata.Rdata):
 
     @classmethod
     def from_wire_parser(cls, rdclass, rdtype, parser, origin=None):
-        algorithm = parser.get_name(origin)
+        algorithm = parser.get_name()
         inception, expiration, mode, error = parser.get_struct("!IIHH")
         key = parser.get_counted_bytes(2)
         other = parser.get_counted_bytes(2)
